@@ -168,6 +168,13 @@ def make_case(rnd, idx, layout, scen, long_spans=False, variant=0, fixed=None):
                 edge = (d.month, d.day) in ((12, 31), (1, 1))
                 if d == forced or (edge and rnd.random() < 0.5) or rnd.random() < 0.004:
                     r[k] = none
+            # the column is there in the first simulated year and holds only the sentinel from the next year file on / the reverse
+            # (whether a column "is there" is reader state that outlives the year file)
+            mode = ("values", "gone-next-year", "values", "appears-next-year")[(idx + OPTCOLS.index(k)) % 4]
+            c.setdefault("optmode", {})[k] = mode
+            for d, r in ser:
+                if (mode == "gone-next-year" and d.year > start.year) or (mode == "appears-next-year" and d.year <= start.year):
+                    r[k] = none
     if scen == "rollovers-past-131":
         ser = [(d, r) for d, r in ser if d <= D(2012, 1, 8)]
     elif scen == "runaway-year-counter":
@@ -493,15 +500,34 @@ def _expect(cs, inp, z):
 
 
 def _expect_opt(cs, inp, z, name):
+    """value of the optional column handed to Evatra for date z; a tuple = any of these (a sentinel that cannot be filled from its two
+    neighbours in the file reaches the model as the sentinel itself or as 0 — never as the value of another day)"""
     none = float(cs["none"])
     v = float(inp[z][name])
     if v != none:
         return v
     a, b = inp.get(z - ONE), inp.get(z + ONE)
-    if a is None or b is None or not ((z - ONE).year == z.year == (z + ONE).year):
-        return None
-    fa, fb = float(a[name]), float(b[name])
-    return (fa + fb) / 2 if fa != none and fb != none else None
+    if a is not None and b is not None and (z - ONE).year == z.year == (z + ONE).year:
+        fa, fb = float(a[name]), float(b[name])
+        if fa != none and fb != none:
+            return (fa + fb) / 2
+    # what the reader's pass over the year file leaves (in place, in file order: an earlier sentinel of the sunshine column has become 0
+    # by the time its successor is looked at)
+    key = (name, z.year)
+    cache = cs.setdefault("_optpass", {})
+    if key not in cache:
+        ds = sorted(d for d in inp if d.year == z.year)
+        v = [float(inp[d][name]) for d in ds]
+        for i in range(len(v)):
+            if 0 < i < len(v) - 1:
+                if v[i] == none and v[i - 1] != none and v[i + 1] != none:
+                    v[i] = (v[i - 1] + v[i + 1]) / 2
+            elif v[i] == none:
+                v[i] = 0.0
+            if name == "sund" and v[i] == none:
+                v[i] = 0.0
+        cache[key] = dict(zip(ds, v))
+    return (none, 0.0, cache[key][z])
 
 
 def _problem(cs, beginn, eff):
@@ -603,7 +629,7 @@ def oracle(ctx, search):
                 if wv is not None:
                     nopt += 1
                     gv = float.fromhex(optv[k][j])
-                    if gv != wv:
+                    if (gv not in wv) if isinstance(wv, tuple) else (gv != wv):
                         bad = (z, "optional column %s: consumed %r, record of that date normalised = %r" % (name, gv, wv))
                         break
             if bad:
